@@ -40,6 +40,7 @@ type layout struct {
 	index  map[string]int // name -> position
 	json   string         // content of the valid JSON file
 	canary []string       // a vector that is parsed again after every case
+	retry  [4]outcome     // what the reference parser says for retryVectors alone
 }
 
 func (l *layout) fHelp() int   { return len(l.fields) }
@@ -162,6 +163,9 @@ func (l *layout) build() *layout {
 		panic(err)
 	}
 	l.json = string(b)
+	for i, v := range retryVectors {
+		l.retry[i] = refParseG(v, l, files{})
+	}
 	return l
 }
 
@@ -262,6 +266,14 @@ type realResultG struct {
 	args2       []string
 	usage2      bool
 	vals1       []any // field values after the first call
+
+	// retry after a first Parse that returned an error, see retryVectors
+	retry      bool
+	retryPanic string
+	retryErr   error
+	args0      []string
+	usage0     bool
+	vals0      []any
 }
 
 func runRealG(argv []string, l *layout) (r realResultG) {
@@ -277,15 +289,30 @@ func runRealG(argv []string, l *layout) (r realResultG) {
 		r.newErr = err
 		return r
 	}
+	snapshot := func() []any {
+		v := make([]any, len(l.fields))
+		for i := range l.fields {
+			v[i] = r.root.FieldByIndex(l.fidx[i]).Interface()
+		}
+		return v
+	}
 	if r.err = fs.Parse(argv); r.err != nil {
+		r.args0, r.usage0, r.vals0 = fs.Args(), fs.ShowUsage(), snapshot()
+		func() {
+			defer func() {
+				if p := recover(); p != nil {
+					r.retryPanic = fmt.Sprint(p)
+				}
+			}()
+			r.retry = true
+			r.retryErr = fs.Parse(append([]string(nil), retryVectors[retryIndex(argv)]...))
+		}()
+		r.args2, r.usage2 = fs.Args(), fs.ShowUsage()
 		return r
 	}
 	r.args = fs.Args()
 	r.usage = fs.ShowUsage()
-	r.vals1 = make([]any, len(l.fields))
-	for i := range l.fields {
-		r.vals1[i] = r.root.FieldByIndex(l.fidx[i]).Interface()
-	}
+	r.vals1 = snapshot()
 	func() {
 		defer func() {
 			if p := recover(); p != nil {
@@ -367,6 +394,9 @@ func judgeG(l *layout, o *outcome, r *realResultG, argvModel, argvReal []string)
 	case o.class == "" && r.err != nil:
 		return "rejected-good", "nil; " + l.describe(o), "error: " + r.err.Error()
 	case o.class != "":
+		if r.retry {
+			return judgeRetryG(l, r, argvReal)
+		}
 		return "", "", ""
 	case !sameStrings(o.args, r.args):
 		return "args-differ", fmt.Sprintf("Args()=%q", clipArgs(o.args)), fmt.Sprintf("Args()=%q", clipArgs(r.args))
@@ -399,6 +429,45 @@ func judgeG(l *layout, o *outcome, r *realResultG, argvModel, argvReal []string)
 			if !sameValue(l.kinds[i], o.vals[i], got2(i)) {
 				return "second-parse:field-differ:" + l.names[i], what + "cfg=" + l.showVals(func(i int) any { return o.vals[i] }), "cfg=" + l.showVals(got2)
 			}
+		}
+	}
+	return "", "", ""
+}
+
+// judgeRetryG: the same rule as judgeRetry.
+func judgeRetryG(l *layout, r *realResultG, argv []string) (kind, expected, observed string) {
+	ri := retryIndex(argv)
+	what := fmt.Sprintf("after Parse returned an error, Parse(%q) ", retryVectors[ri])
+	m := &l.retry[ri]
+	got2 := func(i int) any { return r.root.FieldByIndex(l.fidx[i]).Interface() }
+	switch {
+	case r.retryPanic != "":
+		return "retry-parse:panic", what + "does not panic", "panic: " + r.retryPanic
+	case r.retryErr != nil && ri == retryInvalid:
+		return "", "", ""
+	case r.retryErr != nil:
+		switch {
+		case !sameStrings(r.args0, r.args2):
+			return "retry-parse:refused-but-changed:Args", what + fmt.Sprintf("is refused and leaves Args()=%q", clipArgs(r.args0)), fmt.Sprintf("Args()=%q", clipArgs(r.args2))
+		case r.usage0 != r.usage2:
+			return "retry-parse:refused-but-changed:ShowUsage", what + fmt.Sprintf("is refused and leaves ShowUsage()=%v", r.usage0), fmt.Sprintf("ShowUsage()=%v", r.usage2)
+		}
+		for i := range l.fields {
+			if !sameValue(l.kinds[i], r.vals0[i], got2(i)) {
+				return "retry-parse:refused-but-changed:" + l.names[i], what + "is refused and leaves cfg=" + l.showVals(func(i int) any { return r.vals0[i] }), "cfg=" + l.showVals(got2)
+			}
+		}
+		return "", "", ""
+	case m.class != "":
+		return "retry-parse:accepted-bad:" + m.class, what + "returns an error (" + m.class + ")", "nil"
+	case !sameStrings(m.args, r.args2):
+		return "retry-parse:args-differ", what + fmt.Sprintf("= nil with Args()=%q", m.args), fmt.Sprintf("Args()=%q", clipArgs(r.args2))
+	case m.usage != r.usage2:
+		return "retry-parse:usage-differ", what + fmt.Sprintf("= nil with ShowUsage()=%v", m.usage), fmt.Sprintf("ShowUsage()=%v", r.usage2)
+	}
+	for i := range l.fields {
+		if !sameValue(l.kinds[i], m.vals[i], got2(i)) {
+			return "retry-parse:field-differ:" + l.names[i], what + "= nil with cfg=" + l.showVals(func(i int) any { return m.vals[i] }) + " (nothing of the rejected vector survives)", "cfg=" + l.showVals(got2)
 		}
 	}
 	return "", "", ""
